@@ -1,4 +1,5 @@
 import NmVerif.NN.Views
+import NmVerif.Index.Reduce
 /-
   NN/Spec — the reference side (PyTorch documentation formulas), written as directly as possible.
 -/
@@ -59,5 +60,44 @@ def conv2dLoop (grp : Nat → Nat) (x w : Arr Int) (bias : Option (Arr Int)) (H 
   sumTo Cg (fun c => sumTo KH (fun kh => sumTo KW (fun kw =>
       padRead2 x H W pH pW n (grp o * Cg + c) (i * sH + kh * dH) (j * sW + kw * dW) * w.get [o, c, kh, kw])))
     + (match bias with | none => 0 | some b => b.get [o])
+
+/-! ### groups of a reduction (softmax / normalisation statistics) -/
+
+/-- all multi-indices of `s` that agree with `i` on every axis `k` where `p (o + position)` is false — the reduced
+    axes run over their whole extent, the others stay fixed — in row-major (C) order -/
+def groupL (p : Nat → Bool) : Nat → Shape → Idx → List Idx
+  | _, [], _ => [[]]
+  | o, a :: t, i0 :: it =>
+    if p o then (List.range a).flatMap fun k => (groupL p (o + 1) t it).map (k :: ·)
+    else (groupL p (o + 1) t it).map (i0 :: ·)
+  | _, _ :: _, [] => []
+
+/-- the line through `i` along axis `ax`: `i` with coordinate `ax` running over `0 .. n−1` (`n` the extent of that axis) -/
+def lineOf (s : Shape) (ax : Nat) (i : Idx) : List Idx :=
+  match s[ax]? with
+  | some n => (List.range n).map fun k => i.set ax k
+  | none => []
+
+/-- the block of `i` over the trailing axes `m ..`: the first `m` coordinates of `i` followed by every index of the
+    trailing extents, row-major -/
+def blockOf (s : Shape) (m : Nat) (i : Idx) : List Idx := (allIdx (s.drop m)).map fun r => i.take m ++ r
+
+/-- the normalised value at `i` given the group `G` of `i`: `S = Σ_G x`, `μ = S/|G|`, `V = Σ_G |x − μ|²`,
+    `(x[i] − μ) / sqrt(V/|G| + eps)`; `none` only for an empty group -/
+def normAt (add sub div : α → α → α) (sqabs sqrt : α → α) (divn : α → Nat → α) (eps : α) (x : Idx → α) (G : List Idx)
+    (i : Idx) : Option α :=
+  (Reduce.foldFirst add none (G.map x)).bind fun S =>
+    (Reduce.foldFirst add none (G.map fun k => sqabs (sub (x k) (divn S G.length)))).map fun V =>
+      div (sub (x i) (divn S G.length)) (sqrt (add (divn V G.length) eps))
+
+/-- `j` with the coordinate `k` inserted at position `ax` -/
+def insAt (j : Idx) (ax k : Nat) : Idx := j.take ax ++ k :: j.drop ax
+
+/-- the value `view::bilinear` computes for output `[b, o]` of rank-2 inputs: for each `j` the inner sum
+    `Σ_i x[b,i]·w[o,i,j]` (folded from its first term) times `y[b,j]`, these `J` terms folded from the first -/
+def bilinearAt (add mul : α → α → α) (x y w : Idx → α) (I J b o : Nat) : Option α :=
+  ((List.range J).mapM fun j =>
+      (Reduce.foldFirst add none ((List.range I).map fun i => mul (x [b, i]) (w [o, i, j]))).map fun S => mul S (y [b, j])).bind
+    fun terms => Reduce.foldFirst add none terms
 
 end NmVerif.NN
